@@ -67,6 +67,8 @@ pub const W_GENERAL: [u32; NOPS] = [30, 10, 5, 4, 5, 3, 18, 5, 14, 8, 3, 1, 1, 5
 pub const W_LEAKY: [u32; NOPS] = [30, 8, 5, 3, 4, 2, 18, 4, 12, 7, 3, 1, 1, 5, 3, 2, 3, 3, 3, 7, 5, 3, 4, 2, 6];
 /// entry-heavy mix (C14)
 pub const W_ENTRY: [u32; NOPS] = [8, 3, 1, 2, 2, 0, 6, 4, 30, 20, 1, 0, 1, 4, 1, 0, 0, 1, 1, 30, 20, 0, 0, 5, 20];
+/// very large, sparse tables: point operations, clear/drain/retain/extract_if, no cloning or rebuilding
+pub const W_HUGE: [u32; NOPS] = [30, 12, 3, 6, 3, 2, 14, 3, 8, 5, 2, 0, 4, 0, 3, 3, 3, 0, 2, 5, 3, 2, 0, 3, 2];
 /// insert/remove churn (C13)
 pub const W_CHURN: [u32; NOPS] = [40, 5, 0, 3, 0, 0, 40, 2, 6, 3, 0, 0, 0, 0, 0, 0, 0, 0, 0, 3, 2, 0, 0, 0, 1];
 
